@@ -2,7 +2,7 @@
    line written by the Go harness) to the canonical text of the model's
    observable.  Used identically by the extracted OCaml driver and by the
    in-Coq vm_compute evaluation. *)
-From Lungo.Model Require Import Compare RunAccess.
+From Lungo.Model Require Import Compare RunAccess Arith.
 Open Scope string_scope.
 
 Definition bad : string := "BAD-CASE".
@@ -26,6 +26,7 @@ Definition run_cmp (x : sexp) : option string :=
 Definition runners : list (sexp -> option string) :=
   [ run_cmp
   ; run_access
+  ; run_num
   ].
 
 Fixpoint first_some (rs : list (sexp -> option string)) (x : sexp) : string :=
